@@ -168,6 +168,8 @@ def rewrite_case(rng, case):
 
 from .c13 import DataDirs      # the data directory is the first component of every location, whichever chain is built first
 
+from .c12 import Naming        # the group levels of a location come from the naming rule, whatever was named before in the process
+
 class Rewrites(Suite):
     """(configuration, computation-preserving rewriting): corresponding tasks keep their location"""
     name = 'rewritings'
@@ -810,7 +812,7 @@ class SameNamedClasses(Suite):
 
 class C02(Prop):
     pid = 'C02'
-    suites = [Rewrites(), Registry(), ObjectArgOrder(), HashSeeds(), PathDefaults(), IgnoredValues(), ValueSources(), SameNamedClasses(), DataDirs()]
+    suites = [Rewrites(), Registry(), ObjectArgOrder(), HashSeeds(), PathDefaults(), IgnoredValues(), ValueSources(), SameNamedClasses(), DataDirs(), Naming()]
     known_classes = {'object-argument-order': object_order_class, 'object-argument-order-registry': object_arg_order_class,
                      'hash-seed-set-attribute': hash_seed_class, 'placeholder-equals-default': placeholder_default_class,
                      'path-default-repr': path_default_class, 'quoted-placeholder-text': quoted_placeholder_class}
